@@ -245,6 +245,19 @@ def run(rep, tier, seed, replay):
                 n += 1
                 cases.append({"id": "e%d" % n, "tree": rt, "style": st, "text": "vd__v = " + render(rt, st, rng), "run": True, "dummy": DUMMY})
         rep.exhaustive = True
+        # operators without a result in operand position: every operand instruction leaves exactly one value (nil here),
+        # so the enclosing array / operator gets the operands of its own reading
+        VOID = DUMMY + [{"cls": "uv", "n": "vuv"}, {"cls": "nv", "n": "vnv"}]
+        one, two = {"k": "lit", "v": "1"}, {"k": "lit", "v": "2"}
+        uv = lambda x: {"k": "un", "op": "vuv", "x": x}
+        nv = {"k": "nul", "op": "vnv"}
+        A = lambda *els: {"k": "arr", "els": list(els)}
+        B3 = lambda l, r: {"k": "bin", "op": "vb3", "lv": 3, "l": l, "r": r}
+        for t in (A(one, uv(two), one), A(uv(one)), A(uv(one), uv(two)), A(one, A(two, uv(one)), two), A(nv, one), A(one, nv), A(nv), A(one, uv(B3(one, two)), two),
+                  B3(A(one, uv(two)), A(nv, two)), A(one, uv(A(nv)), two), A({"k": "un", "op": "vu", "x": A(uv(one))}, two)):
+            for st in ("min", "full"):
+                n += 1
+                cases.append({"id": "v%d" % n, "tree": t, "style": st, "text": "vd__v = " + render(t, st, rng), "run": True, "dummy": VOID})
         # registry
         regev = vlib.run_driver("registry", [{"id": "reg"}], wdir, kind="rel", timeout_s=60, jobs=1, tag="reg")
         ops = [e for e in regev if e["e"] == "Op"]
@@ -253,6 +266,13 @@ def run(rep, tier, seed, replay):
         for focus, t in registry_cases(ops, rng, tier):
             n += 1
             cases.append({"id": "r%d" % n, "tree": t, "style": "min", "text": "vd__v = " + render(t, "min", rng), "run": False, "focus": focus})
+        # `private` is a keyword token of its own in the lexer: its unary use in every letter case
+        if any(o["n"] == "private" and o["cls"] == "u" for o in ops):
+            L2 = {"k": "lit", "v": "xb"}
+            for sp in ("private", "PRIVATE", "Private", "pRIVATE"):
+                for t in ({"k": "un", "op": "private", "x": L2}, {"k": "arr", "els": [{"k": "lit", "v": "xa"}, {"k": "un", "op": "private", "x": L2}]}):
+                    n += 1
+                    cases.append({"id": "r%d" % n, "tree": t, "style": "min", "text": "vd__v = " + render(t, "min", random.Random(0)).replace("private", sp), "run": False, "focus": "private"})
         # the same templates over the synthetic operators (the classes and levels no registered name has)
         for focus, t in registry_cases(DUMMY, rng, "thorough"):
             n += 1
